@@ -6,6 +6,7 @@
 -/
 import VotelibModel.Simple
 import VotelibModel.Convert
+import VotelibModel.CondorcetRanked
 namespace VL.C11F
 open VL VL.Convert
 
@@ -22,5 +23,54 @@ def positionalRule (sc : Scorer) (p : RProfile) (n : Nat) : Except Err (List Slo
 /-- `PreConverted(ApprovalToSimpleVotes(split), Plurality())` — approval voting / satisfaction approval voting -/
 def approvalRule (split : Bool) (p : AProfile) (n : Nat) : Except Err (List Slot) :=
   preConverted (approvalToSimple split p) (fun v => plurality v n)
+
+/-! ### the Condorcet family: `PreConverted(RankedToCondorcetVotes(), condorcet.EVALUATORS[name])` -/
+
+/-- the ten entries of `votelib.evaluate.condorcet.EVALUATORS` (condorcet.py L529-540) -/
+inductive CondorcetEv where
+  | rankedPairs (sc : Condorcet.Scorer)
+  | copeland (secondOrder : Bool)
+  | schulze
+  | kemenyYoung
+  | minimax (sc : Condorcet.Scorer)
+deriving DecidableEq, Repr
+
+/-- `EVALUATORS[name].evaluate(pairwise, n)` -/
+def CondorcetEv.eval : CondorcetEv → Condorcet.Pairwise → Nat → Except Err (List Slot)
+  | .rankedPairs sc, v, n => Condorcet.rankedPairs sc v n
+  | .copeland so, v, n => .ok (Condorcet.copeland so v n)
+  | .schulze, v, n => .ok (Condorcet.schulze v n)
+  | .kemenyYoung, v, n => Condorcet.kemenyYoung v n
+  | .minimax sc, v, n => .ok (Condorcet.minimax sc v n)
+
+def CondorcetEv.byName : String → Option CondorcetEv
+  | "rankedpairs_winvotes" => some (.rankedPairs .winningVotes)
+  | "rankedpairs_margins" => some (.rankedPairs .margins)
+  | "rankedpairs_pwo" => some (.rankedPairs .pairwiseOpposition)
+  | "copeland_2o" => some (.copeland true)
+  | "copeland_raw" => some (.copeland false)
+  | "schulze" => some .schulze
+  | "kemeny_young" => some .kemenyYoung
+  | "minimax_winvotes" => some (.minimax .winningVotes)
+  | "minimax_margins" => some (.minimax .margins)
+  | "minimax_pwo" => some (.minimax .pairwiseOpposition)
+  | _ => none
+
+/-- `PreConverted(RankedToCondorcetVotes(), EVALUATORS[name]).evaluate(votes, n)` -/
+def condorcetRule (ev : CondorcetEv) (p : Condorcet.Profile) (n : Nat) : Except Err (List Slot) :=
+  ev.eval (Condorcet.rankedToCondorcet p) n
+
+/-- the seatless set selectors behind the same converter -/
+inductive CondorcetSet where
+  | winner | smith | schwartz
+deriving DecidableEq, Repr
+
+def CondorcetSet.eval : CondorcetSet → Condorcet.Pairwise → List Cand
+  | .winner, v => Condorcet.condorcetWinner v
+  | .smith, v => Condorcet.smithSet v
+  | .schwartz, v => Condorcet.schwartzSet v
+
+def condorcetSetRule (s : CondorcetSet) (p : Condorcet.Profile) : List Cand :=
+  s.eval (Condorcet.rankedToCondorcet p)
 
 end VL.C11F
